@@ -220,9 +220,17 @@ def dispatch(ctx):
         variant = want[cal.key]
         # argument provenance by parameter name of the callee
         names = {}
-        for v in cal.vars:
-            if v['arg'] is not None and not v['pl']['p']:
-                names[v['pl']['l'] - 1] = v['name']
+        taglen = (F.consts.get('core::TAG_LENGTH') or {}).get('v', 16)
+        for pi in range(1, cal.argc + 1):
+            ty = cal.local_ty(pi)
+            if re.search(r'^&\[u8; %d\]$' % taglen, ty):
+                names[pi - 1] = 'tag'
+            elif re.search(r'^&core::UserSecretKey$', ty):
+                names[pi - 1] = 'usk'
+            elif re.search(r'^&\[.*(Point|PublicKey)\]$', ty):
+                names[pi - 1] = 'c'
+            elif re.search(r'^&(\[|std::vec::Vec<)', ty):
+                names[pi - 1] = 'encs'
         for i, a in enumerate(c.args):
             nm = names.get(i, '?')
             roots = [r for r in root_descr(body, a) if r[0] == 'param']
